@@ -163,6 +163,11 @@ impl Scenario for C05 {
         if kind == "nodeloop" || kind == "handover" {
             // lengths here are payload binary sizes
             p.lens = (0..n).map(|_| *r.pick(&[0u32, 0, 1, 10, 300, if fine { 3000 } else { 70_000 }])).collect();
+            if !fine && p.cut_every == 0 && p.cap == 0 && p.reader.chunking != Chunking::Byte && r.chance(1, 8) {
+                // one frame whose length needs all four bytes of the prefix (above 2^24), well below the 64 MiB cap
+                let i = r.below(n as u64) as usize;
+                p.lens[i] = (1 << 24) + r.below(200_000) as u32;
+            }
         }
         if kind == "fault" {
             p.fault = (*r.pick(&["eof", "eof", "reset", "overcap", "overcap", "atcap"])).to_string();
@@ -208,7 +213,7 @@ impl Scenario for C05 {
             components_stubbed: &["TCP socket (SimNet pipe)", "peer (byte feeder / collector)"],
             assumptions: &["TCP semantics: bytes arrive in order, unmodified, until close/reset", "allocation size measured per thread by a counting global allocator"],
             fault_prefixes: &["fault.", "net."],
-            expected_probes: &["probe.c05.eof_in_prefix", "probe.c05.eof_in_body", "probe.c05.eof_between_frames", "probe.c05.overcap_refused", "probe.c05.zero_len_frame", "probe.c05.len_65536", "probe.c05.handover_coalesced"],
+            expected_probes: &["probe.c05.eof_in_prefix", "probe.c05.eof_in_body", "probe.c05.eof_between_frames", "probe.c05.overcap_refused", "probe.c05.zero_len_frame", "probe.c05.len_65536", "probe.c05.handover_coalesced", "probe.c05.frame_above_16_mib"],
         }
     }
 }
@@ -527,7 +532,10 @@ async fn nodeloop(w: &Arc<World>, p: &Plan) {
             w.stat("probe.c05.zero_len_frame");
         }
         let ctl = Val::tuple(vec![Val::int(2), Val::atom(""), wire::gen_pid(&mut r, Some("sut@host"))]);
-        let mut body = r.bytes((*l).min(300_000) as usize);
+        let mut body = r.bytes((*l).min(20_000_000) as usize);
+        if body.len() > (1 << 24) {
+            w.stat("probe.c05.frame_above_16_mib");
+        }
         if !body.is_empty() {
             body[0] = i as u8;
         }
